@@ -506,3 +506,135 @@ theorem lex_floatParts (p : FloatParts) (hv : p.Valid) (T : List Token) (l : Cha
       exact h2
 
 end ZygoVerif.Lexer
+
+namespace ZygoVerif.Lexer
+open ZygoVerif.PrintData ZygoVerif.NumLit
+
+/-! ## conversion by the `TokenFloat` case -/
+
+theorem digits_no_e (ds : List Char) (hd : ∀ c ∈ ds, isDig c = true) : ds.contains 'e' = false ∧ ds.contains 'E' = false := by
+  constructor <;>
+  · rw [Bool.eq_false_iff]
+    intro h
+    rw [List.contains_iff_mem] at h
+    have := hd _ h
+    revert this; decide
+
+theorem contains_append (a b : List Char) (c : Char) : (a ++ b).contains c = (a.contains c || b.contains c) := by
+  simp [List.contains_eq_any_beq, List.any_append]
+
+theorem FloatParts.contains_e (p : FloatParts) (hv : p.Valid) :
+    p.render.contains 'e' = p.ex.isSome ∧ p.render.contains 'E' = false := by
+  obtain ⟨hi1, hi2⟩ := digits_no_e p.ip hv.ip.2
+  have hsign : ((if p.neg then ['-'] else []) : List Char).contains 'e' = false ∧
+      ((if p.neg then ['-'] else []) : List Char).contains 'E' = false := by
+    cases p.neg <;> exact ⟨by decide, by decide⟩
+  have hfrac : (fracText p.fp).contains 'e' = false ∧ (fracText p.fp).contains 'E' = false := by
+    cases hfp : p.fp with
+    | none => exact ⟨by decide, by decide⟩
+    | some f =>
+      obtain ⟨h1, h2⟩ := digits_no_e f (hv.fp f hfp).2
+      constructor
+      · simp only [fracText, List.contains_cons, h1, Bool.or_false]; decide
+      · simp only [fracText, List.contains_cons, h2, Bool.or_false]; decide
+  have hexp : (expText p.ex).contains 'e' = p.ex.isSome ∧ (expText p.ex).contains 'E' = false := by
+    cases hex : p.ex with
+    | none => exact ⟨by decide, by decide⟩
+    | some sd =>
+      obtain ⟨s, ds⟩ := sd
+      obtain ⟨hs, hds⟩ := hv.ex s ds hex
+      obtain ⟨h1, h2⟩ := digits_no_e ds hds.2
+      constructor
+      · simp [expText]
+      · simp only [expText, List.contains_cons, h2, Bool.or_false]
+        rcases hs with rfl | rfl <;> decide
+  simp only [FloatParts.render, FloatParts.mant, contains_append, hsign.1, hsign.2, hi1, hi2, hfrac.1, hfrac.2, hexp.1,
+    hexp.2, Bool.false_or, Bool.or_false]
+  exact ⟨trivial, trivial⟩
+
+/-- **conversion**: the float token converts to the float the law promises, with the
+`Scientific` flag set exactly when the text has an exponent -/
+theorem atomOfTok_floatParts (p : FloatParts) (hv : p.Valid) (b : Nat) (hb : parseFloat p.render = some b) :
+    Parser.atomOfTok ⟨.float, p.render⟩ = some (some (.float b p.ex.isSome)) := by
+  obtain ⟨he, hE⟩ := p.contains_e hv
+  have hnan : (p.render == "NaN".toList) = false := by
+    rw [beq_eq_false_iff_ne]
+    intro h
+    obtain ⟨hipne, hipd⟩ := hv.ip
+    have a1 : "NaN".toList = ['N', 'a', 'N'] := by decide
+    rw [p.render_eq, a1] at h
+    cases hneg : p.neg with
+    | true => rw [hneg] at h; simp at h
+    | false =>
+      rw [hneg] at h
+      cases hip : p.ip with
+      | nil => exact absurd hip hipne
+      | cons d r =>
+        have hd := hipd d (by rw [hip]; simp)
+        simp only [FloatParts.body, hip, Bool.false_eq_true, ↓reduceIte, List.nil_append, List.cons_append,
+          List.cons.injEq] at h
+        rw [h.1] at hd; revert hd; decide
+  simp only [Parser.atomOfTok, hnan, Bool.false_eq_true, ↓reduceIte, hb, Option.map_some, he, hE, Bool.or_false]
+
+/-! ## uint64 -/
+
+theorem natDec_ULL_plain (n : Nat) : ∀ c ∈ natDec n ++ "ULL".toList, isSpecial c = false := by
+  intro c hc
+  rw [List.mem_append] at hc
+  rcases hc with hc | hc
+  · exact natDec_not_special n c hc
+  · have : ∀ c ∈ "ULL".toList, isSpecial c = false := by decide
+    exact this c hc
+
+theorem stripSuffix_append (ds suf : List Char) : stripSuffix? suf (ds ++ suf) = some ds := by
+  unfold stripSuffix?
+  have h1 : (ds ++ suf).length ≥ suf.length := by simp
+  have h2 : (ds ++ suf).length - suf.length = ds.length := by simp
+  simp [h2]
+
+theorem isDig_isHex (c : Char) (h : isDig c = true) : isHexC c = true := by simp [isHexC, h]
+
+theorem decodeAtom_uint (n : Nat) : decodeAtom (natDec n ++ "ULL".toList) = .ok ⟨.uint64, natDec n ++ "ULL".toList⟩ := by
+  have hne := natDec_ne_nil n
+  have hd := natDec_isDig n
+  have hlast : (natDec n ++ "ULL".toList).getLast? = some 'L' := by
+    have : "ULL".toList.getLast? = some 'L' := by decide
+    rw [List.getLast?_append, this]; rfl
+  cases hds : natDec n with
+  | nil => exact absurd hds hne
+  | cons d r =>
+    have hdd := hd d (by rw [hds]; simp)
+    obtain ⟨_, _, g3, g4, g5, g6, _, _⟩ := isDig_facts d hdd
+    rw [← hds]
+    apply decodeAtom_uint64
+    · rw [hlast]; decide
+    · intro h; rw [hds] at h; simp at h
+    · intro h; rw [hds] at h; simp at h
+    · rw [hds]; exact boolRe_head d _ g3 g4
+    · simp only [uint64Re, stripSuffix_append, hexPlus]
+      have : (natDec n).isEmpty = false := by rw [hds]; rfl
+      simp only [this, Bool.not_false, Bool.true_and]
+      have : (natDec n).all isHexC = true := by
+        rw [List.all_eq_true]; intro c hc; exact isDig_isHex c (hd c hc)
+      simp [this]
+
+theorem atomOfTok_uint (n : Nat) (hn : n < 2 ^ 64) :
+    Parser.atomOfTok ⟨.uint64, natDec n ++ "ULL".toList⟩ = some (some (.uint n)) := by
+  have hne := natDec_ne_nil n
+  have hd := natDec_isDig n
+  have htake : (natDec n ++ "ULL".toList).take ((natDec n ++ "ULL".toList).length - 3) = natDec n := by
+    have : (natDec n ++ "ULL".toList).length - 3 = (natDec n).length := by
+      have : "ULL".toList.length = 3 := by decide
+      simp [this]
+    rw [this, List.take_left']
+    rfl
+  have hp : parseUint64 10 (natDec n) = some n := by simp [parseUint64, natOfDigits_natDec, hn]
+  simp only [Parser.atomOfTok, htake]
+  split
+  · split
+    · rename_i r heq; have := hd 'o' (by rw [heq]; simp); exact absurd this (by decide)
+    · rename_i r heq; have := hd 'x' (by rw [heq]; simp); exact absurd this (by decide)
+    · rw [hp]; rfl
+  · rw [hp]; rfl
+
+end ZygoVerif.Lexer
